@@ -744,9 +744,14 @@ def check_C17(run):
     state = {}
 
     def extra(rng, run):
-        return []
+        # sources whose first character is not the mark but could be mistaken for one (the byte-swapped
+        # mark, noncharacters and replacement character next to it, zero-width characters, the mark's
+        # Latin-1 mojibake): C17 quantifies over every source that does not start with U+FEFF
+        heads = ["\ufffe", "\ufffd", "\uffff", "\u200b", "\u2060", "\u00ef\u00bb\u00bf", "\ufffe\ufeff", "\ufeef", "\ufefe", "\ufff0", "\u180e", "\u00a0"]
+        tails = ["", "data a; x = 1; run;", "%let a=1;", "\n", "x", ";", "/* c */", "'s'", "%m(1)", "datalines;\n1\n;", "\ufeff", "\"", "&a"]
+        return [h + t for h in heads for t in tails]
 
-    res = lexer_check(run, "C17", lambda cx: [], 2500, 60000, variants=("debug", "release"), need_ok=False,
+    res = lexer_check(run, "C17", lambda cx: [], 2500, 60000, variants=("debug", "release"), need_ok=False, extra_inputs=extra,
                       premise=({"loopdet": "false"}, "the loop detector fired in the model run (premise of C17_bom_transparent)"))
     T = impl.tables("debug")
     base_cases = [c for c in res["release"] if c.src is not None and not c.src.startswith(BOMC)]
